@@ -121,6 +121,14 @@ CLAIMED = {
             "offset used for the row index, V::new over the filled digest vector), in both builds. That rows equal polynomial "
             "values is numerical and not decided.",
             "rustc MIR of both feature configurations", "DESIGN.md section 4, C28"),
+    "C17": ("dataflow / control-dependence rules over the MIR of the six hashers' Hasher and ElementHasher impls",
+            "Decides necessary conditions of length and range separation: (R1) the Rescue sponges store a value derived from the input's len() "
+            "(or a domain flag control-dependent on it, together with an end marker at the running position) into the state before the first permutation; "
+            "(R2) hash(bytes) terminates the last byte chunk with a 1 right after its data; (R3) merge_with_int absorbs the value, branches on value < MODULUS "
+            "(the field's own modulus), writes different domain constants into a common state cell on the two branches and absorbs value / MODULUS in the large one; "
+            "(R4) the byte hashers pass the whole input to the hash function and hash seed || value.to_le_bytes() of fixed width; (R5) merge_many is the hash of the "
+            "concatenated digests. That distinct sponge inputs give distinct digests (collision freedom of the permutation / BLAKE3 / SHA3) is not decided.",
+            "rustc MIR; evaluated constants (Range<usize> layout constants decoded from their bytes)", "DESIGN.md section 4, C17"),
     "C27": ("A5 panic inventory over ReadAdapter's ByteReader methods + fill-postcondition / EOF-origin / raw-sink rules",
             "Decides four structural clauses of the streaming reader: (R1) no undischarged panic site reachable from its ByteReader methods "
             "(arithmetic, indexing, RefCell borrows, explicit panics; reviewed reasons re-verified each run); (R2, R3) buffer_at_least(count) returns Ok only "
@@ -136,7 +144,6 @@ NOT_APPLICABLE = {
     "C13": "Polynomial helper results are numerical; no invariant of the control-flow graph implies them.",
     "C14": "Element-wise results and batch-boundary behaviour are numerical; the race-freedom part is covered by C06.",
     "C16": "Equality of the Rescue permutation with a reference on every state is numerical; needs execution or symbolic evaluation.",
-    "C17": "Distinctness of digests for input families is a collision statement about computed values.",
     "C18": "Root/opening consistency and parallel = sequential build are numerical; the rejection/no-panic part is C19.",
     "C21": "Assertion step sets / overlap detection are arithmetic case analysis over run-time integers; deciding exactness is enumeration, i.e. execution.",
     "C22": "Vanishing of boundary constraints on asserted cells is numerical (interpolation, divisor evaluation).",
